@@ -182,6 +182,20 @@ theorem backslash_in_name_fixed (lead p rest : Str) (hl : ∀ c ∈ lead, isWs c
       rw [List.cons_append] at this
       rw [this]
 
+/-- `C08_backslash_in_name` as stated (without `hfix`) is false in the model: with `lead = []`,
+    `p = [':', '"']`, `rest = []` the line is `:"\` and the parser reports the quote first. -/
+theorem backslash_in_name_counterexample :
+    ¬ (∀ (lead p rest : Str), (∀ c ∈ lead, isWs c = true) →
+      (p ≠ [] ∧ (∀ c ∈ p, isWs c = false ∧ c ≠ '#' ∧ c ≠ '\\' ∧ c ≠ '=') ∧ p.head? ≠ some '"' ∧
+        p.head? ≠ some '!') →
+      parseLine (lead ++ p ++ '\\' :: rest) = .error .invalidControlLocation) := by
+  intro h
+  have h1 := h [] [':', '"'] [] (by simp) (by decide)
+  have h2 := quote_starts_label ['\\']
+  simp only [List.nil_append, List.cons_append] at h1
+  rw [h2] at h1
+  cases h1
+
 /-! ### malformed quoted argument after a well-formed command -/
 
 theorem parseArgsLoop_unterminated (k : Nat) (s : Str) :
